@@ -172,7 +172,7 @@ def make_resolver(schema, rng, p_raise, log, want_async):
                 return fail()
             raise e
         v = gen(info.return_type, path, 0)
-        if not want_async and isinstance(v, list) and rng.random() < 0.04:
+        if not want_async and isinstance(v, list) and _is_list_typed(info.return_type) and rng.random() < 0.04:
             # a resolver handing an async iterable to the synchronous entry point: it cannot be consumed there, which
             # must surface as an error in a well-formed response (never as a coroutine object inside data)
             items, boom = v, (exc_pool(rng, path) if rng.random() < 0.5 else None)
@@ -227,6 +227,13 @@ def near_value(rng):
         # a Python mapping need not have text keys (a decoded msgpack / YAML body, a hand-built dict)
         return {rng.choice([1, None, (1, 2), 2.5, True, b'req', frozenset()]): rng.choice([1, 'x', None]), 'req': True}
     return [near_name(rng), {'nested': {near_name(rng): 1, 'req': False}, 'req': True}]
+
+
+def _is_list_typed(t):
+    """(a custom scalar passes any resolver value through, a list or an async generator included: only a list-typed field makes
+    the executor iterate what the resolver returned)"""
+    from graphql import get_nullable_type, is_list_type
+    return is_list_type(get_nullable_type(t))
 
 
 def hostile_variables(rng, declared, valid):
